@@ -1413,3 +1413,102 @@ class EnsureLc(Contract):
         one = c.rt.LinComb.ONE
         return {"V.value": Eq(c.v(r), imul(term(v), c.v(one))), "V.inv": c.inv(r),
                 "V.value_unguarded_or_true_guard": Implies(isg(c), Eq(c.v(r), term(v)))}
+
+
+# ---------------------------------------------------------------------------
+# power / shifts by a SECRET amount (oblivious square-and-multiply)
+# ---------------------------------------------------------------------------
+
+def _pow_secret_spec(c, xv, ev, n):
+    """x ** e mod p for 0 <= e < 2^n, written from the definition: prod_i (x^(2^i))^{e_i}, reduced mod p"""
+    from pyvc.sym import bit
+    p = c.p
+    acc = None
+    sq = xv
+    for i in range(n):
+        term_i = z3.If(bit(ev, i) == 1, sq % p if i else sq, Z(1))
+        acc = term_i if acc is None else imul(acc, term_i) % p
+        sq = imul(sq % p if i else sq, sq % p if i else sq)
+    return acc if acc is not None else Z(1)
+
+
+@register
+class PowSecret(Contract):
+    """x ** e for a secret exponent 0 <= e < 2^bitlength: equals x**e modulo the field prime."""
+    name = "pysnark.runtime:LinComb.__pow__#secret"
+    modules = ("pysnark.runtime", "pysnark.boolean", "pysnark.fixedpoint", "pysnark.branching")
+    vprops = ("C05",)
+    sprops = ()
+    tprops = ("C06",)
+
+    def configs(self, tier):
+        return [dict(mode=m, bits=n) for n in ((2,) if tier == "quick" else (1, 2, 3)) for m in ("plain", "g1")]
+
+    def setup(self, c, cfg):
+        apply_mode(c, cfg["mode"], bitlength=cfg["bits"])
+        return c.LinComb.__pow__, (c.operand("x"), c.operand("e")), {}
+
+    def pre(self, c, x, e, mod=None):
+        return [(1 << (c.bitlength + 1)) < c.p]
+
+    def use_stub(self, c, *a, **k):
+        return False
+
+    def raises(self, c, x, e, mod=None):
+        n = c.bitlength
+        ev = c.v(e)
+        return [(AssertionError, And(Not(ie(c)), Or(ev < 0, ev >= (1 << n))))]
+
+    def post(self, c, r, x, e, mod=None):
+        n = c.bitlength
+        xv, ev = c.v(x), c.v(e)
+        # plain-Python reference for the cases enumerable at this width
+        cases = And(*[Implies(ev == k, modeq(c.v(r), _ipow(xv, k), c.p)) for k in range(1 << n)])
+        exact = And(*[Implies(ev == k, Eq(c.v(r), _ipow(xv, k))) for k in range(1, 1 << n)])
+        return {"V.value_mod_p": cases, "V.inv": c.inv(r),
+                "V.python": Implies(isg(c), exact),
+                "V.python_nonnegative_base": Implies(And(isg(c), xv >= 0, _ipow(xv, (1 << n) - 1) < c.p), exact)}
+
+
+class _ShiftSecret(Contract):
+    modules = ("pysnark.runtime", "pysnark.boolean", "pysnark.fixedpoint", "pysnark.branching")
+    vprops = ("C05",)
+    sprops = ()
+    raises_unspecified = True
+    guard_relevant = False
+
+    def configs(self, tier):
+        return [dict(mode="plain", bits=2)]
+
+    def setup(self, c, cfg):
+        apply_mode(c, cfg["mode"], bitlength=cfg["bits"])
+        x, e = c.operand("x"), c.operand("e")
+        cur().assume(And(term(e.value) >= 0, term(e.value) < (1 << cfg["bits"])))
+        return getattr(c.LinComb, self.name.split("#")[0].rsplit(".", 1)[1]), (x, e), {}
+
+    def pre(self, c, x, e):
+        return [(1 << (c.bitlength + 1)) < c.p]
+
+    def use_stub(self, c, *a, **k):
+        return False
+
+
+@register
+class LShiftSecret(_ShiftSecret):
+    """x << e for a secret e: x * 2^e"""
+    name = "pysnark.runtime:LinComb.__lshift__#secret"
+
+    def post(self, c, r, x, e):
+        n = c.bitlength
+        return {"V.value": And(*[Implies(c.v(e) == k, Eq(c.v(r), c.v(x) * (1 << k))) for k in range(1 << n)]), "V.inv": c.inv(r)}
+
+
+@register
+class RShiftSecret(_ShiftSecret):
+    """x >> e for a secret e: floor(x / 2^e)"""
+    name = "pysnark.runtime:LinComb.__rshift__#secret"
+
+    def post(self, c, r, x, e):
+        from pyvc.sym import shr
+        n = c.bitlength
+        return {"V.value": And(*[Implies(c.v(e) == k, Eq(c.v(r), shr(c.v(x), k))) for k in range(1 << n)]), "V.inv": c.inv(r)}
